@@ -90,6 +90,39 @@ def fresh_by_code(w, i):
         return None
 
 
+def fresh_clip_check(w):
+    """clip_layers as an independent fresh computation (default compatibility mode): a non-clipping layer owns the
+    run of clipping layers listed directly above it, a clipping layer owns none; for every layer below a document"""
+    from psd_tools.constants import Clipping
+
+    for i in range(len(w.objs)):
+        if w.kind(i) != ec.KDOC:
+            continue
+        stack = [w.objs[i]]
+        seen = 0
+        while stack and seen < 3000:
+            g = stack.pop()
+            seen += 1
+            kids = list(g._layers)
+            for n, l in enumerate(kids):
+                if hasattr(l, "_layers"):
+                    stack.append(l)
+                if w.oid(l) == -2:
+                    continue
+                if l._record.clipping == Clipping.NON_BASE:
+                    fresh = []
+                else:
+                    fresh = []
+                    for m in kids[n + 1:]:
+                        if w.oid(m) != -2 and m._record.clipping == Clipping.NON_BASE:
+                            fresh.append(w.oid(m))
+                        else:
+                            break
+                stored = [w.oid(c) for c in l._clip_layers]
+                if stored != fresh:
+                    yield ("stale-clip-layers", {"object": w.oid(l), "stored": stored, "fresh": fresh})
+
+
 class CacheOracle:
     def __init__(self, fail, case):
         self.fail = fail
@@ -143,6 +176,9 @@ class CacheOracle:
                 fr = fresh_by_code(w, g)
                 if fr is not None and fr != ib:
                     self._rep("fresh-bbox-wrong", dict(base, object=g), list(fr), list(ib), ["alias"] if self.alias else [])
+        # clip_layers of every layer below a document equal a fresh computation from flags and order
+        for kind_, det in fresh_clip_check(w):
+            self._rep(kind_, dict(base, **det), det.get("stored"), det.get("fresh"), ["alias"] if self.alias else [])
         # the answer just given is the fresh one
         if out[0] == 0 and o[0] in ("ObsBbox", "ObsSize", "ObsVisible", "ObsRepr"):
             exp = self._expected_answer(w, o, lister)
@@ -233,15 +269,21 @@ def _c(f):
 
 
 def _stale(f):
-    return f["kind"] in ("stale-cache", "stale-answer", "purity-answers", "purity-bytes")
+    return f["kind"] in ("stale-cache", "stale-answer", "purity-answers", "purity-bytes", "stale-clip-layers")
 
 
 core.KNOWN_CLASSIFIERS["F-C14-1"] = lambda f: _stale(f) and "struct" in _c(f)
 core.KNOWN_CLASSIFIERS["F-C14-2"] = lambda f: _stale(f) and "doc-setter" in _c(f)
 core.KNOWN_CLASSIFIERS["F-C14-3"] = lambda f: _stale(f) and "ancestor-visibility" in _c(f)
 core.KNOWN_CLASSIFIERS["F-C14-6"] = lambda f: (
-    f["kind"] in ("purity-composite", "purity-bytes") and f["input"].get("differing_docs_empty") is True
-    and f["input"].get("differing_docs_saved_earlier") is True)
+    (f["kind"] in ("purity-composite", "purity-bytes") and f["input"].get("differing_docs_empty") is True
+     and f["input"].get("differing_docs_saved_earlier") is True)
+    or (f["kind"] == "answer-not-fresh" and f["input"].get("doc_empty") is True
+        and set(f["input"].get("differs", [])) <= {"composite", "numpy"}))
+core.KNOWN_CLASSIFIERS["F-C14-7"] = lambda f: (
+    (f["kind"] in ("purity-composite", "purity-bytes") and f["input"].get("differs") and all(k.startswith("numpy:") for k in f["input"]["differs"])
+     and f["input"].get("differing_docs_saved_earlier") is True)
+    or (f["kind"] == "answer-not-fresh" and f["input"].get("differs") == ["numpy"]))
 core.KNOWN_CLASSIFIERS["F-C14-5"] = lambda f: _stale(f) and "stale-parent-chain" in _c(f)
 core.KNOWN_CLASSIFIERS["F-C14-4"] = lambda f: (_stale(f) or f["kind"] == "fresh-bbox-wrong") and "alias" in _c(f)
 
@@ -259,11 +301,19 @@ core.KNOWN_WITNESS["F-C14-1"] = _w((4, [("NewGroup", 0), ("ObsBbox", 4), ("NewPi
 core.KNOWN_WITNESS["F-C14-2"] = _w((4, [("ObsBbox", 0), ("SetLeft", 1, 5)]), ("stale-cache",))
 core.KNOWN_WITNESS["F-C14-3"] = _w((1, [("ObsBbox", 2), ("SetVisible", 1, False)]), ("stale-cache",))
 def _w6():
-    _, fails, _ = _work_export((4, [("ObsExport", 0, 3), ("Clear", 0)]))
+    _, fails, _ = _work_export2((4, [("ObsExport", 0, 3), ("Clear", 0)]), "new")
     return any(k in ("purity-composite", "purity-bytes") for k, _i, _o, _e in fails)
 
 
 core.KNOWN_WITNESS["F-C14-6"] = _w6
+
+
+def _w7():
+    _, fails, _ = _work_export2((0, [("NewGroup", 0), ("ObsExport", 0, 3), ("SetLeft", 1, 5)]), "new")
+    return any(k in ("purity-composite", "answer-not-fresh") for k, _i, _o, _e in fails)
+
+
+core.KNOWN_WITNESS["F-C14-7"] = _w7
 core.KNOWN_WITNESS["F-C14-5"] = _w((1, [("Remove", 1, 2), ("ObsBbox", 2), ("SetVisible", 1, False)]), ("stale-cache",))
 core.KNOWN_WITNESS["F-C14-4"] = _w((4, [("Append", 0, 3), ("ObsBbox", 2), ("SetLeft", 3, 6), ("ObsBbox", 0), ("SetLeft", 3, 0)]), ("stale-cache",))
 
@@ -281,12 +331,19 @@ def final_answers(w):
 
 
 def doc_renderings(w):
-    """what the documents look like and what save() writes, at the end of a history"""
+    """what the documents answer and what save() writes, at the end of a history.  numpy('shape') and numpy() are
+    asked first: composite() and save() compile the layer records, which is exactly what a stale answer waits for"""
     res = {}
     for i in range(len(w.objs)):
         if w.kind(i) != ec.KDOC:
             continue
         ob = w.objs[i]
+        for nm, arg in (("shape", "shape"), ("numpy", None)):
+            try:
+                a = ob.numpy(arg) if arg else ob.numpy()
+                res["%s:%d" % (nm, i)] = None if a is None else (list(a.shape), a.tobytes().hex())
+            except Exception as e:  # noqa
+                res["%s:%d" % (nm, i)] = "raised " + type(e).__name__
         try:
             im = ob.composite()
             res["composite:%d" % i] = None if im is None else (im.mode, im.size, im.tobytes().hex())
@@ -299,13 +356,41 @@ def doc_renderings(w):
     return res
 
 
-def _work_export(case):
+def fresh_renderings(w):
+    """(a) the answers of the live document vs the same questions asked to a saved and reopened copy"""
+    out = []
+    for i in range(len(w.objs)):
+        if w.kind(i) != ec.KDOC:
+            continue
+        ob = w.objs[i]
+        try:
+            live = {"shape": ob.numpy("shape").tobytes().hex(), "numpy": ob.numpy().tobytes().hex()}
+            im = ob.composite(force=True)
+            live["composite"] = None if im is None else (im.mode, im.tobytes().hex())
+            re, _ = ec.save_reopen(ob)
+            fresh = {"shape": re.numpy("shape").tobytes().hex(), "numpy": re.numpy().tobytes().hex()}
+            im2 = re.composite(force=True)
+            fresh["composite"] = None if im2 is None else (im2.mode, im2.tobytes().hex())
+        except Exception as e:  # noqa
+            continue
+        bad = sorted(k for k in live if live[k] != fresh[k])
+        if bad:
+            out.append((i, bad, {k: str(live[k])[:60] for k in bad}, {k: str(fresh[k])[:60] for k in bad}))
+    return out
+
+
+def _work_export(item):
+    case, docs_kind = item if isinstance(item[0], tuple) else (item, "new")
+    return _work_export2(case, docs_kind)
+
+
+def _work_export2(case, docs_kind):
     """histories with exporting reads (topil / numpy / composite / save to a scratch buffer / mask, effects, print):
     stored state compared with the model without caches; twin run without the reads must end in the same stored
     state, the same answers, the same composite and the same saved bytes"""
     fails = []
     orc = CacheOracle(lambda kind, inp, obs, exp: fails.append((kind, inp, obs, exp)), case)
-    w, ds, outs = ec.run_case(case, hooks=(orc,), nc=True)
+    w, ds, outs = ec.run_case(case, hooks=(orc,), nc=True, docs=docs_kind)
     stats = {}
     for o in case[1]:
         if o[0] == "ObsExport":
@@ -315,14 +400,19 @@ def _work_export(case):
         stats["export-raised:" + e] = stats.get("export-raised:" + e, 0) + 1
     if not w.dead:
         stripped = (case[0], [o for o in case[1] if o[0] not in ec.OBSERVERS])
-        w2, _, _ = ec.run_case(stripped)
-        base = {"scene": case[0], "history": [list(o) for o in case[1]], "causes": sorted(orc.causes_seen)}
+        w2, _, _ = ec.run_case(stripped, docs=docs_kind)
+        base = {"scene": case[0], "history": [list(o) for o in case[1]], "causes": sorted(orc.causes_seen), "documents": docs_kind}
         if not w2.dead:
             if state_nocache(w) != state_nocache(w2):
                 fails.append(("purity-state", base, "stored state differs", "same stored state (caches aside) as without the read-only operations"))
             else:
                 a1, a2 = final_answers(w), final_answers(w2)
                 r1, r2 = doc_renderings(w), doc_renderings(w2)
+                if not orc.alias:
+                    for di, bad, live, fresh in fresh_renderings(w2):
+                        fails.append(("answer-not-fresh", dict(base, doc=di, differs=bad, history=[list(o) for o in stripped[1]],
+                                                               doc_empty=len(w2.objs[di]._layers) == 0), live,
+                                      "the saved and reopened copy answers the same: %s" % (fresh,)))
                 if a1 != a2:
                     bad = [i for i in range(len(a1)) if a1[i] != a2[i]]
                     for i in bad:
@@ -414,10 +504,28 @@ def gen_export_cases(ck):
     for _ in range(n):
         k = rng.choice([0, 1, 2, 3, 4, 5, 6])
         cases.append(ec.random_walk(rng, k, rng.choice([3, 4, 6, 10]), fam, guarded=ec.structure_guard))
-    return [c for c in cases if any(o[0] == "ObsExport" for o in c[1])]
+    items = [(c, "new") for c in cases if any(o[0] == "ObsExport" for o in c[1])]
+    # flat documents made by PSDImage.frompil(RGBA): first layer in / last layer out, exports in between
+    for kk in range(5):
+        for tail in ([], [("DeleteLayer", 1)], [("DeleteLayer", 1), ("ObsExport", 0, kk)], [("SetVisible", 1, False)],
+                     [("Append", 0, 2), ("Remove", 0, 1), ("Pop", 0, 0), ("ObsExport", 0, kk)]):
+            items.append(((8, [("Append", 0, 1), ("ObsExport", 0, kk)] + tail), "frompil-rgba"))
+            items.append(((8, [("ObsExport", 0, kk), ("Append", 0, 1)] + tail), "frompil-rgba"))
+    for _ in range(200 if thorough else 40):
+        c = ec.random_walk(rng, 8, rng.choice([3, 5, 8]), ["Append", "Remove", "Pop", "DeleteLayer", "MoveToGroup", "NewGroup", "SetVisible",
+                                                         "ObsExport", "ObsExport", "ObsExport"], guarded=ec.structure_guard)
+        if any(o[0] == "ObsExport" for o in c[1]):
+            items.append((c, "frompil-rgba"))
+    # documents whose last clipping layer goes away (scenes 6 and 2)
+    for kk in (0, 2, 3):
+        for ops in ([("DeleteLayer", 3)], [("MoveToGroup", 3, 1)], [("SetClip", 3, False)], [("Pop", 0, -1)]):
+            items.append(((6, list(ops) + [("ObsExport", 0, kk), ("SetLeft", 2, 4)]), "new"))
+            items.append(((6, [("ObsExport", 0, kk)] + list(ops)), "new"))
+    return items
 
 
-def _work_export_err(case, msg):
+def _work_export_err(item, msg):
+    case = item[0] if isinstance(item[0], tuple) else item
     inp = {"scene": case[0], "history": [list(o) for o in case[1]], "step": len(case[1]) - 1}
     return [0], [("driver-exception", inp, msg, "the operation sequence runs")], {}
 
@@ -487,6 +595,9 @@ def run():
                "saved bytes must agree); non-trivial = distinct history containing a read-only operation and an edit")
     if ck.coq_build(["theories/Edit/Corr.v", "theories/Properties/C14.v"]):
         ck.collect_theorems("C14.v")
+    # the repairs committed to /repo are expected to be present: a probe that answers "old variant" is a regression
+    ck.obligations.append(("code-variant:all-repairs-present", all(ec.code_variant()),
+                           "" if all(ec.code_variant()) else "probed (clipfix, selffix, descfix, clipsfix, cachefix) = %r" % (ec.code_variant(),)))
     cases, sizes = gen_cases(ck)
     for k, v in sizes.items():
         ck.count("cases:" + k, v)
@@ -507,13 +618,15 @@ def run():
     for i in bad[:3]:
         ck.notes.append(ec.explain_mismatch(ck, cases[i], "c14_%d" % i)[:1500])
     # exporting reads between edits
-    ecases = gen_export_cases(ck)
+    eitems = gen_export_cases(ck)
+    ecases = [it[0] for it in eitems]
     ck.count("cases:export-interleavings", len(ecases))
-    eres = ec.parallel_map(ec.Guarded(_work_export, _work_export_err), ecases, chunk=20)
+    ck.count("cases:export-interleavings:frompil-rgba-documents", sum(1 for it in eitems if it[1] != "new"))
+    eres = ec.parallel_map(ec.Guarded(_work_export, _work_export_err), eitems, chunk=20)
     ecc = []
     for c, (dg, fails, stats) in zip(ecases, eres):
         ecc.append((c, dg))
-        for kind, inp, obs, exp in ec.shrink_failures(ck, c, fails, lambda c2: _work_export(c2)[1]):
+        for kind, inp, obs, exp in ec.shrink_failures(ck, c, fails, lambda c2, dk=(fails[0][1].get("documents", "new") if fails and isinstance(fails[0][1], dict) else "new"): _work_export2(c2, dk)[1]):
             ck.fail(kind, inp, obs, exp)
         for key, v in stats.items():
             ck.count(key, v)
@@ -536,6 +649,16 @@ def replay(path):
     fl = json.load(open(path))
     inp = fl["input"]
     case = (inp["scene"], [tuple(o) for o in inp["history"]])
+    if "documents" in inp or any(o[0] == "ObsExport" for o in case[1]):
+        dk = inp.get("documents", "new")
+        print("scene", case[0], "=", ec.SCENES[case[0]], "| documents made by:", dk)
+        print("history:", case[1])
+        print("exporting reads: ObsExport x k, k =", ec.EXPORT_KINDS)
+        _, fl2, st = _work_export2(case, dk)
+        for kind, i, obs, exp in fl2:
+            print("  ", kind, {k: v for k, v in i.items() if k not in ("history", "scene")}, "| observed:", str(obs)[:200], "| expected:", str(exp)[:200])
+        print("kind:", fl["kind"], "| reproduced:", any(k == fl["kind"] for k, _i, _o, _e in fl2))
+        return 1
     fails = []
     orc = CacheOracle(lambda kind, i, obs, exp: fails.append((kind, i.get("step"), i.get("object"), obs, exp, i.get("causes"))), case)
     w, ds, outs = ec.run_case(case, hooks=(orc,))
